@@ -255,4 +255,9 @@ let () =
   port "dedent" (fun r -> wr_str (dedent (rd_str r)));
   port "prepare_body" (fun r -> wr_str (prepare_body (rd_str r)));
   (* render_parsed: options, document -> text *)
-  port "render_parsed" (fun r -> let o = rd_mdopts r in let d = rd_doc r in wr_m wr_str (render_parsed o d))
+  port "render_parsed" (fun r -> let o = rd_mdopts r in let d = rd_doc r in wr_m wr_str (render_parsed o d));
+  port "parser_input" (fun r -> wr_opt wr_str (parser_input (rd_str r)));
+  (* fill_markdown with the parser's answer for parser_input(text) supplied by the harness *)
+  port "fill_markdown" (fun r -> let o = rd_mdopts r in let text = rd_str r in let d = rd_opt rd_doc r in
+    let parse _ = (match d with Some x -> x | None -> { d_blocks = []; d_refdefs = [] }) in
+    wr_m wr_str (fill_markdown parse o text))
